@@ -93,7 +93,7 @@ var properties = map[string]propSpec{
 			{Engine: "A", Scenario: "load", Quick: 24, Thorough: 300},
 			{Engine: "A", Scenario: "transfer", Quick: 8, Thorough: 100},
 			{Engine: "A", Scenario: "general", Quick: 8, Thorough: 100},
-			{Engine: "A", Scenario: "stale-queue-reelection", Quick: 8, Thorough: 80},
+			{Engine: "A", Scenario: "stale-queue-reelection", Quick: 20, Thorough: 200},
 		},
 		Rule:       "directed scenario (leader deposed with an update pending at index k, index k overwritten by the next leader but not known committed, old leader re-elected by timeout-now so that its no-op lands at k+1) and seeded live-cluster runs with 4-8 client goroutines submitting Update/Read/DirtyRead/Barrier tasks to any node, with leader changes, partitions, restarts, transfers, self-demotion; history recorded at the API boundary (call before submit, return after Done; operations that never return stay open); non-trivial if at least 300 client operations completed and at least one leader change happened; distinct = distinct abstract trace",
 		Nontrivial: all(ge("client-ops", 300), ge("leaders-elected", 2)),
